@@ -80,6 +80,12 @@ def twins(tier, seed):
             inner = nested_def("In", 2)
             add(_case("x", N, [nested_field("x", [(N - 2, N - 1)], inner)], helpers=[inner]), _case("x", N, [nested_field("x", [(N - 1, N)], inner)], helpers=[inner]), "beyond-base-width",
                 "scalar nested-bitfield range straddling bit N-1, %s" % ("native base" if N in NATIVE else "arbitrary-int base"), "nested")
+        if N >= 16:
+            # a range list that names bits twice: the range with the lower / equal start is the one that leaves the base
+            for (pa, na, shape_) in (([(N - 8, N - 1), (N - 2, N - 1)], [(N - 8, N + 7), (N - 2, N - 1)], "overlapping list whose first (lower-start) range passes bit N-1"),
+                                     ([(N - 2, N - 1), (N - 8, N - 1)], [(N - 2, N - 1), (N - 8, N + 7)], "overlapping list whose last (lower-start) range passes bit N-1"),
+                                     ([(N - 4, N - 1), (N - 4, N - 3)], [(N - 4, N + 3), (N - 4, N - 3)], "overlapping list, equal starts, the longer range passes bit N-1")):
+                add(_case("x", N, [uint_field("x", pa)]), _case("x", N, [uint_field("x", na)]), "beyond-base-width", "%s, %s" % (shape_, "native base" if N in NATIVE else "arbitrary-int base"), "list")
         # --- arrays whose last element passes bit N-1 ---
         for (w, K) in ((1, 2), (2, 2), (2, 3), (4, 2), (8, 2)):
             if K * w > N:
